@@ -21,6 +21,8 @@
 //	                a  writes the first half of one more message and closes (abrupt close mid-message)
 //	                i  stays connected and silent until the collector has been stopped
 //	                h  writes the first half of one more message and stays connected until the collector has been stopped
+//	                s  (tls) connects over TCP, sends 3 bytes of a ClientHello and stalls until the collector has been
+//	                   stopped; all other clients connect after it (elsewhere: like i)
 //
 // Observation:
 //
@@ -242,7 +244,7 @@ type clientSpec struct {
 	beh byte
 }
 
-func (c clientSpec) holds() bool { return c.beh == 'i' || c.beh == 'h' }
+func (c clientSpec) holds() bool { return c.beh == 'i' || c.beh == 'h' || c.beh == 's' }
 
 type scenario struct {
 	transport string
@@ -279,7 +281,7 @@ func parseScenario(f []string) (scenario, bool) {
 		}
 		n, err := strconv.Atoi(t[:len(t)-1])
 		b := t[len(t)-1]
-		if err != nil || n < 0 || n > 100000 || !strings.ContainsRune("caih", rune(b)) {
+		if err != nil || n < 0 || n > 100000 || !strings.ContainsRune("caihs", rune(b)) {
 			return sc, false
 		}
 		sc.clients = append(sc.clients, clientSpec{n, b})
@@ -370,6 +372,31 @@ func (r *run) client(i int, res *clientResult, release <-chan struct{}) {
 	jitter := 2000
 	if r.sc.transport == "udp" { // spread the first datagrams (the templates): a lost template makes the whole client undecodable
 		jitter += 500 * len(r.sc.clients)
+	}
+	hasStall := false
+	for _, c := range r.sc.clients {
+		if c.beh == 's' {
+			hasStall = true
+		}
+	}
+	if spec.beh == 's' && r.sc.transport == "tls" {
+		// a peer that connects and stalls in the middle of the TLS handshake: 3 bytes of a ClientHello
+		// record header, then silence, socket kept open until the collector has been stopped
+		c, err := (&net.Dialer{Timeout: 5 * time.Second}).Dial("tcp", r.addr)
+		res.start = time.Now()
+		defer func() { res.end = time.Now() }()
+		if err != nil {
+			res.dialErr = true
+			<-release
+			return
+		}
+		c.Write([]byte{0x16, 0x03, 0x01})
+		<-release
+		c.Close()
+		return
+	}
+	if hasStall { // the stalled peer connects first; everybody else clearly after it
+		time.Sleep(40 * time.Millisecond)
 	}
 	time.Sleep(time.Duration(rng.Intn(jitter)) * time.Microsecond)
 	var conn net.Conn
